@@ -64,13 +64,24 @@ Layouts == [
                    fields |-> <<LF("total", 0, 4, "total")>>, true |-> [total |-> 36], kv |-> FALSE]
 ]
 
-Muts == {"none", "zero", "one", "two", "three", "minus1", "plus1", "large", "max"}
+(* value classes of a length field.  Besides the small corruptions: the boundaries of the integer types the decoders keep
+   the value in - the codecs read a 2-byte field into a uint16 and a 4-byte field into a uint32 and convert to int (64 bit)
+   for arithmetic; dubbo and dubbo-thrift also add constants to the uint32 itself (decodeFrame), which wraps:
+     "sbm1","sb"   2^(8w-1)-1 and 2^(8w-1): the sign bit of an int16 / int32 holding the field
+     "wrap0"       2^32 - c, c = what the decoder adds to the field (fixed header length / the 4 uncounted bytes): the
+                   sum is 0 in uint32 arithmetic;   "wrapm1": one less (the sum is 2^32-1) *)
+Muts == {"none", "zero", "one", "two", "three", "minus1", "plus1", "large", "sbm1", "sb", "wrapm1", "wrap0", "max"}
 
 FieldOf(L, f) == LET is == { i \in DOMAIN L.fields : L.fields[i].name = f } IN L.fields[CHOOSE i \in is : TRUE]
 FieldNames(L) == { L.fields[i].name : i \in DOMAIN L.fields }
 MaxOf(w) == IF w = 1 THEN 255 ELSE IF w = 2 THEN 65535 ELSE Big
 
-(* value written into field f under mutation m; -1 = mutation not applicable *)
+(* what a decoder adds to the field before it compares *)
+WrapBase(L, f) == LET r == FieldOf(L, f).role IN
+                  IF r = "part" THEN L.fixed ELSE IF r = "total" THEN L.bias ELSE 4
+
+(* value written into field f under mutation m; -1 = mutation not applicable; Big = above every bound of the model
+   (the driver writes the number the class stands for) *)
 MutVal(L, f, m) ==
   LET t == L.true[f]  w == FieldOf(L, f).w IN
   CASE m = "none"   -> t
@@ -81,6 +92,10 @@ MutVal(L, f, m) ==
     [] m = "minus1" -> IF t <= 1 THEN -1 ELSE t - 1
     [] m = "plus1"  -> t + 1
     [] m = "large"  -> IF w = 4 THEN Large ELSE -1
+    [] m = "sbm1"   -> IF w = 2 THEN 32767 ELSE Big
+    [] m = "sb"     -> IF w = 2 THEN 32768 ELSE Big
+    [] m = "wrapm1" -> IF w = 4 /\ WrapBase(L, f) > 0 THEN Big ELSE -1
+    [] m = "wrap0"  -> IF w = 4 /\ WrapBase(L, f) > 0 THEN Big ELSE -1
     [] m = "max"    -> MaxOf(w)
 
 Vals(L, f, m) == [g \in FieldNames(L) |-> IF g = f THEN MutVal(L, f, m) ELSE L.true[g]]
@@ -134,6 +149,8 @@ DS(layout, name, at, patch) == [layout |-> layout, codec |-> Layouts[layout].cod
 Directed == {
   DS("bolt_req",    "key-length-minus-one",      "0000000773657276", "ffffffff73657276"),
   DS("bolt_req",    "key-length-2g",             "0000000773657276", "7fffffff73657276"),
+  DS("bolt_req",    "key-length-sign-bit",       "0000000773657276", "8000000073657276"),
+  DS("boltv2_resp", "key-length-sign-bit",       "0000000773657276", "8000000073657276"),
   DS("bolt_req",    "value-length-minus-two",    "00000003737663",   "fffffffe737663"),
   DS("bolt_req",    "value-swallows-next-key",   "00000003737663",   "00000008737663"),
   DS("boltv2_resp", "value-swallows-next-key",   "00000003737663",   "00000008737663"),
@@ -148,6 +165,7 @@ Directed == {
   DS("dubbo_req",   "hessian-string-bad-byte-b", "087376632e74",     "0873f6632e74"),
   DS("dubbo_req",   "hessian-string-bad-bytes",  "322e302e32087376", "322e302ed60873f6"),
   DS("thrift_req",  "service-length-2g",         "0100000008737663", "017fffffff737663"),
+  DS("thrift_req",  "service-length-sign-bit",   "0100000008737663", "0180000000737663"),
   DS("thrift_req",  "service-length-negative",   "0100000008737663", "01ffffffff737663"),
   DS("thrift_req",  "method-length-2g",          "0000000463616c6c", "7fffffff63616c6c"),
   DS("thrift_resp", "method-length-2g",          "0000000463616c6c", "7fffffff63616c6c"),
@@ -248,6 +266,7 @@ InvNoOOB     == maxread <= n          \* never reads outside the received bytes
 EmitCase == (Emit /\ pc = "min") =>
   PrintT(<<"CASE", ToJson([layout |-> lay, codec |-> L0.codec, dir |-> L0.dir, field |-> fld, mut |-> mut,
                            off |-> FieldOf(L0, fld).off, w |-> FieldOf(L0, fld).w, val |-> MutVal(L0, fld, mut),
+                           wrapbase |-> WrapBase(L0, fld),
                            n |-> n, T |-> TrueLen(L0), A |-> A0, valid |-> LenValid(L0, V0),
                            vis |-> Visible(L0, fld, mut, n), true |-> L0.true])>>)
 ====
